@@ -250,7 +250,7 @@ func ruleSuffix(e *Env, rule string) {
 		return []int{0, 1}
 	}
 	mk := func() []pred.Val { return []pred.Val{pred.Sym{Name: "s"}, pred.Sym{Name: "l"}} }
-	leaves, err := extractTree(e.P.SSA, suf, mk, nil, nil, keyOf, domain)
+	leaves, err := extractTree(e.P.SSA, suf, e.Permuted("sem", "comparePreReleaseSuffix", suf, mk), nil, nil, keyOf, domain)
 	if err != nil {
 		e.S.Unk(rule, site, "table", err.Error(), e.Pos(suf))
 		return
